@@ -269,6 +269,12 @@ impl<'s> Lexer<'s> {
             return ControlFlow::Continue(());
         }
 
+        // If the word continues (e.g. `AS1_prepend`), it is an identifier
+        // and not an AS number followed by something else.
+        if tail.starts_with(|c: char| is_xid_continue(c)) {
+            return ControlFlow::Continue(());
+        }
+
         let (tok, span) = self.bump_to(tail);
         ControlFlow::Break((Token::Asn(tok), span))
     }
